@@ -43,7 +43,7 @@ checks = {
  "C12": ("seq", "fault_enumeration", "fault enumeration: one-shot panic at EVERY raw-operation index of generated base cases + persistent evil-lock fault sets; trace oracle",
    "Which lock leaks depends on the index of the failing raw operation relative to the algorithm's bookkeeping, so every index is a separate case; enumeration per base case is complete, base cases are generated.",
    "Fault model: a faulted raw operation has no effect on lock state (as the repository's evil_* locks)."),
- "C13": ("seq", "exploration", "differential against a reference table (try outcome iff grantable) with phantom holders, state-unchanged oracle",
+ "C13": ("seq", "exploration", "differential against a reference table (try outcome iff grantable) with phantom holders, state-unchanged oracle, a try that waits or releases a foreign hold is a finding",
    "Exactness over every held pattern / mode / shape; the reference is three lines of table lookup.",
    "Quiescent states only (phantom holders never move); nothing runs concurrently."),
  "C14": ("types", "exploration", "grammar-generated twin/offending program pairs, rustc as oracle, error location must be the marked region",
@@ -52,10 +52,10 @@ checks = {
  "C15": ("types", "exploration", "twin/offending pairs for D1-D7; auto traits decided differentially against std over positions x payloads x {Send, Sync}",
    "The differential against std widens the auto-trait part beyond a hand-written list (it found two wrong bounds); D1-D7 as for C14.",
    "std's bounds are taken as the reference strictness; raw lock types are the default parking_lot ones."),
- "C16": ("drops", "exploration", "drop-counting payloads + value round-trip oracle over generated construction/destruction plans; quarantine allocator turns double frees into findings",
+ "C16": ("drops", "exploration", "drop-counting payloads + value round-trip oracle over generated construction/destruction plans; quarantine allocator turns double frees into findings; thorough: the same plans under libFuzzer with AddressSanitizer / LeakSanitizer",
    "Drop-exactly-once through the boxed collection's raw-pointer ownership is invisible to value assertions; generated plans cover every ctor/dtor path x container x leaf.",
    "Drop table per scenario; frees are quarantined during a scenario so a double free is recorded instead of corrupting the heap."),
- "C17": ("seq", "exploration", "model-based PBT: non-acquiring operations under every hold pattern incl. the caller's own guard / closure; no-wait + owner-table-unchanged oracle",
+ "C17": ("seq", "exploration", "model-based PBT: non-acquiring operations under every hold pattern incl. the caller's own guard / closure; no-wait + owner-table-unchanged + no-foreign-release oracle",
    "A transient try/unlock or a would-be block is invisible with parking_lot unless it hangs; the auditing lock sees both (it found Debug unlocking a held Mutex).",
    "Transient try+unlock pairs inside Debug are allowed when they restore the state."),
 }
@@ -73,7 +73,7 @@ m = {
    {"name": "seq", "path": "harness/src/{interp,engine,gen,world,exec,vlock}.rs", "serves_properties": ["C02","C03","C04","C05","C06","C07","C08","C10","C11","C12","C13","C17"], "kind_free_text": seq},
    {"name": "conc", "path": "harness/src/{exec,engine,gen}.rs", "serves_properties": ["C01","C02","C03","C04","C05","C08","C09","C10","C11"], "kind_free_text": conc},
    {"name": "types", "path": "harness/src/tyeng.rs", "serves_properties": ["C01","C07","C14","C15"], "kind_free_text": types},
-   {"name": "fuzz", "path": "fuzz/fuzz/fuzz_targets/{fuzz_seq,fuzz_conc}.rs, tools/fuzz.sh", "serves_properties": ["C01","C02","C03","C04","C05","C06","C08","C09","C10","C11","C13","C17"], "kind_free_text": "libFuzzer (cargo-fuzz, ASan) over the same byte decoders and oracles; thorough tier only, amplification"},
+   {"name": "fuzz", "path": "fuzz/fuzz/fuzz_targets/{fuzz_seq,fuzz_conc,fuzz_eval}.rs, tools/fuzz.sh", "serves_properties": ["C01","C02","C03","C04","C05","C06","C07","C08","C09","C10","C11","C12","C13","C16","C17"], "kind_free_text": "libFuzzer (cargo-fuzz, ASan + LSan) over the same byte decoders, evaluators and oracles; thorough tier only, amplification; for C16 a reproduced sanitizer report is a violation (replay = the saved input)"},
    {"name": "drops", "path": "harness/src/{drops,quarantine}.rs", "serves_properties": ["C16"], "kind_free_text": "typed construction/destruction scenarios with drop-counting payloads"},
  ],
  "checks": [],
